@@ -35,8 +35,12 @@ func raceRun(bodies []func()) {
 	go func() { wg.Wait(); close(done) }()
 	select {
 	case <-done:
-	case <-time.After(20 * time.Second):
-		fmt.Fprintln(os.Stderr, "RACEPASS-HANG")
+	case <-time.After(120 * time.Second):
+		// the free-running bodies (each a few milliseconds of work) did not finish: real goroutines
+		// are deadlocked. Reported once; the pass stops here (every further scenario would wait too).
+		fmt.Fprintln(os.Stderr, "RACEPASS-VIOLATION free-running scenario bodies block forever (deadlock among real goroutines)")
+		fmt.Fprintln(os.Stderr, "RACEPASS-DONE")
+		os.Exit(0)
 	}
 }
 
@@ -52,6 +56,7 @@ func c09RacePass(tier string) {
 	base := lx.NewFullEnv()
 	lx.Eval(nil, lx.MustRead(`(def failing (fn [x] (throw "no")))`), base)
 	call.CallOverrideFN(base, "t!", func(c types.MalType) (types.MalType, error) { return c, nil })
+	c09InstallCallf(base)
 	total := 0
 	n := len(atomOps)
 	var plans [][]int
@@ -178,6 +183,56 @@ func c11RacePass(tier string) {
 			raceRun(bodies)
 			total++
 		}
+	}
+	// a crowd: several hundred evaluations in flight at once on one shared environment, each a
+	// macro-heavy program with its own local names; every one must return what it returns alone
+	// (process-wide state shared by all evaluations only shows with many of them in flight)
+	crowdProgs := []string{
+		"(let [n %d] (cond false 1 (or nil false) 2 :else (and 1 (-> n (+ 1) (* 2)))))",
+		"(do (defmacro cd%d (fn [k] (if (< k 1) 0 (list 'cd%d (- k 1))))) (let [z %d] (list z (cd%d 6) (->> z (+ 1) (list 2)))))",
+		"(let [v%d [1 2 3]] (or (and nil 1) (cond (empty? v%d) 0 :else (count (map (fn [x] (-> x (+ %d))) v%d)))))",
+	}
+	crowd := 384
+	if tier == "thorough" {
+		crowd = 1024
+	}
+	for pi, pt := range crowdProgs {
+		sh := env.NewSubordinateEnv(base)
+		mk := func(g int) string {
+			switch pi {
+			case 0:
+				return fmt.Sprintf(pt, g)
+			case 1:
+				return fmt.Sprintf(pt, g, g, g, g)
+			}
+			return fmt.Sprintf(pt, g, g, g, g)
+		}
+		want := make([]string, crowd)
+		for g := 0; g < crowd; g++ {
+			r, err, p := lx.Eval(context.Background(), lx.MustRead(mk(g)), env.NewSubordinateEnv(base))
+			want[g] = fmt.Sprint(r, err, p)
+		}
+		var bad sync.Map
+		var bodies []func()
+		for g := 0; g < crowd; g++ {
+			g := g
+			ast := lx.MustRead(mk(g))
+			bodies = append(bodies, func() {
+				for k := 0; k < 4; k++ {
+					r, err, p := lx.Eval(context.Background(), ast, sh)
+					if got := fmt.Sprint(r, err, p); got != want[g] {
+						bad.Store(g, got+" instead of "+want[g])
+					}
+				}
+			})
+		}
+		raceRun(bodies)
+		total++
+		bad.Range(func(k, v any) bool {
+			fmt.Fprintf(os.Stderr, "RACEPASS-VIOLATION one of %d evaluations running at once returns something else than alone\n", crowd)
+			fmt.Fprintf(os.Stderr, "  (evaluation %v: %v)\n", k, v)
+			return false
+		})
 	}
 	fmt.Fprintf(os.Stderr, "RACEPASS-ITERATIONS %d\n", total)
 }
